@@ -115,7 +115,7 @@ def run_driver(ctx, name, traces, args=(), timeout=1800, module_dir=HARNESS, env
         if env:
             e.update(env)
         p = subprocess.run([os.path.join(module_dir, BIN, name), path] + list(args), cwd=module_dir, env=e,
-                           stdout=subprocess.PIPE, stderr=subprocess.PIPE, text=True, timeout=timeout)
+                           stdout=subprocess.PIPE, stderr=subprocess.PIPE, text=True, errors='replace', timeout=timeout)
     except subprocess.TimeoutExpired:
         raise Inconclusive('driver %s timed out after %ds' % (name, timeout))
     finally:
